@@ -15,6 +15,7 @@ mod ext_c14;
 mod ext_c04;
 mod ext_c05;
 mod ext_bin;
+mod ext_stat;
 mod enc;
 mod gen;
 mod interp;
@@ -24,6 +25,7 @@ mod props_path;
 mod props_sim;
 mod props_set;
 mod props_bin;
+mod props_stat;
 mod proto;
 mod rng;
 
